@@ -9,7 +9,7 @@ import time
 from pfv import terms as tm
 from pfv import smt, fc
 from pfv.framework import Obligation, Verdict, real_exec
-from pfv.proxies import explore, SReal, SInt, Unsupported, ctx
+from pfv.proxies import explore, SReal, SInt, Unsupported, ctx, lift
 
 N, T, I = tm.var('N', 'I'), tm.var('T', 'I'), tm.var('i', 'I')
 K, SIGMA, DT, B = tm.var('K'), tm.var('sigma'), tm.var('dt'), tm.var('B')
@@ -567,6 +567,212 @@ def _replay_hedger():
     return {'real': r, 'confirmed': not ok, 'note': 'replay: real hedgers (BS, WW, linear nets with/without prev_hedge, H=1,2) on simulated paths: shape, last column, perturb-the-future, buffers unchanged'}
 
 
+# ------------------------------------------------------------------ the step-by-step loop of compute_hedge, cut by an invariant (all T)
+
+def _loop_spec(H, on_preserve=None, extra_inv=None, extra_lemmas=None):
+    """LoopSpec for `for time_step in range(n_steps - 1)` of Hedger.compute_hedge.
+    State: the list `outputs` (havocked as a SymList: one stacked tensor hvS (N, L, H) for the L outputs so far),
+    the loop variable, and on the heap the hedger's buffer prev_output (havocked as hvP (N,1,H)).
+    Invariant:  len(outputs) == time_step  and  prev_output == the last output (zeros (N,1,H) before the first step).
+    Ghost footprint invariant (checked by `_footprint_rows`): outputs[k] reads market data of columns <= k only."""
+    import torch
+    from pfv import cutloops
+    from pfv.torchlib.tensor import Tensor
+    Hc = tm.const(H, 'I')
+
+    def heap_havoc(state):
+        P = Tensor.input('hvP', (N, 1, H), torch.float64, origin='fresh')
+        state['self'].register_buffer('prev_output', P, persistent=False)
+
+    def havoc_outputs(old, c):
+        L = SInt(c.fresh('hvL', 'I'))
+        return cutloops.SymList(Tensor.input('hvS', (N, L, H), torch.float64, origin='fresh'), L)
+
+    def elem(outs, n, k, h):
+        phys = list(list.__iter__(outs))
+        L = lift(outs.stacked_len)
+        val = phys[0].at((n, k, h))
+        for j_, it in enumerate(phys[1:]):
+            val = tm.ite(tm.lt(k, tm.add(L, tm.const(j_, 'I'))), val, it.at((n, tm.IZERO, h)))
+        return val
+
+    def inv(state, state0):
+        outs, i = state['outputs'], lift(state['time_step'])
+        P = state['self'].get_buffer('prev_output')
+        n, h = tm.fresh('in', 'I'), tm.fresh('ih', 'I')
+        rows = [('len(outputs) == time_step', tm.eq(cutloops.list_len(outs), i))]
+        prev = tm.ite(tm.eq(i, tm.IZERO), tm.ZERO, elem(outs, n, tm.sub(i, tm.IONE), h)) if isinstance(outs, cutloops.SymList) else tm.ZERO
+        shape_ok = len(P._shape) == 3 and P._shape[1] == 1 and P._shape[2] == H
+        rows.append(('prev_output has shape (N, 1, H)', tm.TRUE if shape_ok else tm.FALSE))
+        if shape_ok:
+            rows.append(('prev_output == the last output (zeros before the first step)',
+                         tm.forall(n, tm.IZERO, N, tm.forall(h, tm.IZERO, Hc, tm.eq(P.at((n, tm.IZERO, h)), prev)))))
+        if extra_inv is not None and isinstance(outs, cutloops.SymList):
+            rows += extra_inv(state, lambda n_, k_, h_: elem(outs, n_, k_, h_))
+        return rows
+
+    def lemmas(state):
+        if on_preserve is not None:
+            on_preserve(state)
+        return extra_lemmas(state) if extra_lemmas is not None else []
+    return cutloops.LoopSpec(inv, name='for time_step', havoc={'outputs': havoc_outputs}, heap_havoc=heap_havoc, lemmas=lemmas)
+
+
+def hedge_loop_ob(model_kind, H, aspects=('reads', 'last', 'shape', 'prev'), props=('C02', 'C13'), und='brownian', dkind='european'):
+    """compute_hedge, state-dependent branch, for EVERY number of steps: the real loop cut by the invariant of `_loop_spec`."""
+    tag = '%s,H=%d,stepwise,all T (loop invariant),%s%s' % (model_kind, H, dkind, (',' + und) if und != 'brownian' else '')
+
+    def check():
+        t0 = time.time()
+        from pfv import cutloops
+        from pfv.torchlib.tensor import ti
+        from pfhedge.nn.modules.hedger import Hedger
+        hyps = [h for h in DIMS] + [tm.ge(tm.var('c1'), tm.ZERO), tm.ge(tm.var('c2'), tm.ZERO), tm.gt(tm.var('a'), tm.ZERO)]
+        holder = {}
+
+        def on_preserve(state):
+            ctx().notes.append(('iter', state['outputs'], lift(state['time_step']), list(rec), state['self'].get_buffer('prev_output')))
+        rec = []
+        cut, info = cutloops.cut(Hedger.compute_hedge, {0: _loop_spec(H, on_preserve)})
+
+        def run(c):
+            del rec[:]
+            d = mk_derivative(kind=dkind, underlier=und, cost=SReal(tm.var('c1')))
+            assume_positive_spot(c)
+            if und == 'heston':
+                assume_nonneg(c, 'variance')
+            if H >= 2:
+                assume_positive_spot(c, 'spot2')
+            feats = ['log_moneyness', 'time_to_maturity', 'volatility', 'prev_hedge'] if model_kind == 'user' else None
+            if model_kind == 'user':
+                import pfhedge.nn as pnn
+                hedger = pnn.Hedger(UserModel.make(H, record=rec), feats)
+            else:
+                hedger, feats = mk_hedger(model_kind, d, H, feats)
+            hs = mk_hedge_list(d, H)
+            return cut(hedger, d, hedge=hs if H >= 2 else None), hedger
+        try:
+            paths = explore(run, hyps, max_paths=32)
+        except Unsupported as e:
+            return Verdict('unknown', 'engine', time.time() - t0, 'out of reach: %s' % e)
+        sample = {'claim': 'loop invariant of the step loop; shape (N,H,T); no trade at maturity; ghost footprint: output k reads columns <= k; prev_hedge = previous output', 'scenario': tag,
+                  'rewritten': info['rewritten'][-900:], 'accesses': 0}
+        rows = []
+        n, h, j = tm.var('n', 'I'), tm.var('h', 'I'), tm.var('j', 'I')
+        Hc = tm.const(H, 'I')
+        rng = [tm.le(tm.IZERO, n), tm.lt(n, N), tm.le(tm.IZERO, h), tm.lt(h, Hc)]
+        seen_iter = seen_exit = False
+
+        def st(r):
+            return {'unsat': 'proved', 'sat': 'refuted'}.get(r.status, 'unknown')
+
+        def footprint(el, facts, bound_buf, bound_S, where):
+            out = []
+            for (g, acc) in tm.accesses(el):
+                nm_ = acc.args[0]
+                if nm_ in BUFFERS:
+                    b = bound_buf
+                elif nm_ == 'hvS':
+                    b = bound_S
+                else:
+                    continue
+                sample['accesses'] += 1
+                r = smt.prove(facts + [g], tm.le(acc.args[2], b), timeout_ms=10000)
+                out.append(('[reads] %s: %s read at a column <= %s' % (where, nm_, tm.show(b)), st(r), tm.show(acc) if r.status != 'unsat' else ''))
+            return out
+        for p in paths:
+            for so in p.side:
+                if so['kind'] in ('inv-init', 'inv-preserve'):
+                    r = smt.prove(so['hyps'], so['goal'], timeout_ms=20000)
+                    rows.append(('[inv] %s: %s' % (so['kind'], so['name']), st(r), tm.show(so['goal'])[:200] if r.status != 'unsat' else ''))
+                elif so['kind'] == 'bounds' and 'list of symbolic length' in so['name']:
+                    r = smt.prove(so['hyps'], so['goal'], timeout_ms=20000)
+                    rows.append(('[inv] %s' % so['name'], st(r), ''))
+            facts = p.facts(hyps)
+            if p.aborted is not None and p.aborted.kind == 'loop-cut':
+                seen_iter = True
+                notes = [x for x in p.ctx.notes if isinstance(x, tuple) and x and x[0] == 'iter']
+                if not notes:
+                    return Verdict('unknown', 'engine', time.time() - t0, 'iteration state not captured', sample=sample)
+                _, outs, i_after, inputs, P_after = notes[-1]
+                i_new = tm.sub(i_after, tm.IONE)
+                new = list(list.__iter__(outs))[-1]
+                if len(list(list.__iter__(outs))) != 2 or len(new._shape) != 3:
+                    rows.append(('[shape] one (N,1,H) output appended per step', 'refuted', str(getattr(new, '_shape', None))))
+                    continue
+                for a_, b_ in zip(new._shape, (N, 1, H)):
+                    r = smt.prove(facts, tm.eq(ti(a_), ti(b_)), timeout_ms=10000)
+                    rows.append(('[shape] step output is (N, 1, H)', st(r), str(new._shape) if r.status != 'unsat' else ''))
+                el = new.at((n, tm.IZERO, h))
+                fr = footprint(el, facts + rng, i_new, tm.sub(i_new, tm.IONE), 'output of step i')
+                rows += fr
+                # ghost footprint of the heap cell prev_output (what the prev_hedge feature will read at step i+1): columns <= i
+                if len(P_after._shape) == 3:
+                    rows += footprint(P_after.at((n, tm.IZERO, h)), facts + rng, i_new, tm.sub(i_new, tm.IONE), 'prev_output after step i')
+                if model_kind == 'user':
+                    if len(inputs) != 1:
+                        rows.append(('[prev] the model is called once per step', 'refuted', '%d calls' % len(inputs)))
+                    else:
+                        inp = inputs[0]
+                        F = 3
+                        ok_shape = len(inp._shape) == 3 and inp._shape[1] == 1 and inp._shape[2] == F + H
+                        rows.append(('[prev] model input is (N, 1, F + H)', 'proved' if ok_shape else 'refuted', str(inp._shape)))
+                        if ok_shape:
+                            P_prev = tm.ite(tm.eq(i_new, tm.IZERO), tm.ZERO, tm.sel('hvS', n, tm.sub(i_new, tm.IONE), h))
+                            for hh in range(H):
+                                seen = inp.at((n, tm.IZERO, tm.const(F + hh, 'I')))
+                                want = tm.subst(P_prev, {h: tm.const(hh, 'I')})
+                                r = fc.prove_eq(facts + rng, seen, want, timeout_ms=20000)
+                                rows.append(('[prev] prev_hedge[%d] seen by the model at step i == output of step i-1 (zero at step 0)' % hh, st(r), tm.show(seen)[:200] if r.status != 'unsat' else ''))
+                continue
+            if p.outcome() != 'returns':
+                return Verdict('unknown', 'engine', time.time() - t0, 'path %s: %s %s' % (p.outcome(), p.exception, p.traceback[-700:]), sample=sample)
+            seen_exit = True
+            hedge, hedger = p.result
+            if len(hedge._shape) != 3:
+                rows.append(('[shape] rank 3', 'refuted', str(hedge._shape)))
+                continue
+            for a_, b_ in zip(hedge._shape, (N, H, T)):
+                r = smt.prove(facts, tm.eq(ti(a_), ti(b_)), timeout_ms=10000)
+                rows.append(('[shape] hedge is (N, H, T)', st(r), str(hedge._shape) if r.status != 'unsat' else ''))
+            last = tm.sub(T, tm.IONE)
+            el_last, el_prev = hedge.at((n, h, last)), hedge.at((n, h, tm.sub(T, tm.const(2, 'I'))))
+            r = fc.prove_eq(facts + rng, el_last, el_prev, timeout_ms=20000)
+            rows.append(('[last] hedge at the final index == the one held over the last step', st(r), tm.show(el_last)[:200] if r.status != 'unsat' else ''))
+            el = hedge.at((n, h, j))
+            crng = [tm.le(tm.IZERO, j), tm.lt(j, T)]
+            bound = tm.ite(tm.eq(j, last), tm.sub(T, tm.const(2, 'I')), j)
+            rows += footprint(el, facts + rng + crng, bound, bound, 'hedge[:, :, j]')
+            for (stg, what) in p.writes:
+                if stg.origin != 'fresh' and not stg.origin.startswith('leaf:'):
+                    rows.append(('[frame] no market data written', 'refuted', 'in-place %s into %s' % (what, stg.origin)))
+            rows.append(('[frame] no market data written', 'proved', ''))
+        if not (seen_iter and seen_exit):
+            return Verdict('unknown', 'engine', time.time() - t0, 'paths: %s' % [p.outcome() for p in paths], sample=sample)
+        keep = ['[inv]'] + ['[%s]' % a_ for a_ in aspects]
+        rows = [r_ for r_ in rows if any(r_[0].startswith(k_) for k_ in keep)]
+        if 'reads' in aspects and sample['accesses'] == 0:
+            return Verdict('unknown', 'engine', time.time() - t0, 'no market-data access found in the step output (vacuous footprint)', sample=sample)
+        sample['vcs'] = [{'vc': r_[0], 'status': r_[1]} for r_ in rows][:24]
+        sample['n_vcs'] = len(rows)
+        if 'prev' not in aspects:
+            # the invariant "prev_output == the last output" is the statement of C03 and decides there; the other aspects do not rest on
+            # it: non-anticipation uses the ghost footprint of prev_output (rows "[reads] prev_output after step i"), frames the write log
+            rows = [r_ for r_ in rows if not (r_[0].startswith('[inv]') and 'prev_output' in r_[0])]
+        bad = [r_ for r_ in rows if r_[1] == 'refuted']
+        unk = [r_ for r_ in rows if r_[1] == 'unknown']
+        if bad:
+            return Verdict('refuted', 'z3 + loop cut', time.time() - t0, '; '.join('%s %s' % (r_[0], r_[2]) for r_ in bad)[:600], witness={'failed': [r_[0] for r_ in bad]}, sample=sample,
+                           replay=_replay_prev() if any('[prev]' in r_[0] for r_ in bad) else _replay_hedger())
+        if unk:
+            return Verdict('unknown', 'z3', time.time() - t0, '; '.join('%s %s' % (r_[0], r_[2]) for r_ in unk)[:600], sample=sample)
+        return Verdict('proved', 'z3 (LIA/UF, quantified loop invariant) + ghost footprint', time.time() - t0, '%d path(s), %d VCs' % (len(paths), len(rows)), sample=sample)
+    names = {'shape': 'shape (N,H,T)', 'last': 'final index = previous (no trade at maturity)', 'reads': 'non-anticipative (ghost footprint invariant: output k reads columns <= k)',
+             'frame': 'modifies no market data', 'prev': 'prev_hedge at step i is the output of step i-1 (zeros (N,1,H) at step 0)'}
+    return Obligation('HS/compute_hedge/loop:%s[%s]' % ('+'.join(aspects), tag), 'inv-init/inv-preserve/post', 'pfhedge.nn.modules.hedger.Hedger.compute_hedge', check, list(props),
+                      clause='compute_hedge step loop, every number of steps [%s]: %s' % (tag, ', '.join(names[a_] for a_ in aspects)))
+
+
 def hedger_obligations(seed, tier='quick'):
     obs = []
     scen = []
@@ -586,6 +792,10 @@ def hedger_obligations(seed, tier='quick'):
     for sc in scen:
         obs.append(hedge_footprint_ob(aspects=('reads', 'last', 'shape'), props=('C02', 'C13'), **sc))
         obs.append(hedge_footprint_ob(aspects=('frame',), props=('C16',), **sc))
+    # the state-dependent branch for EVERY number of steps: the step loop cut by its invariant
+    for (mk, H) in (('user', 1), ('user', 2), ('ww', 1)):
+        obs.append(hedge_loop_ob(mk, H, aspects=('reads', 'last', 'shape'), props=('C02', 'C13')))
+        obs.append(hedge_loop_ob(mk, H, aspects=('frame',), props=('C16',)))
     return obs
 
 
@@ -752,6 +962,92 @@ def batched_vs_stepwise_ob(H, Tc, alias_model=False):
                       clause='a hedger with state-independent inputs gives the same hedge and P&L all-at-once and step-by-step (uninterpreted point-wise model, all N; H=%d, T=%d)' % (H, Tc))
 
 
+FEATS_BVS = ['log_moneyness', 'time_to_maturity', 'volatility', 'max_log_moneyness']
+
+
+def batched_vs_stepwise_loop_ob(H):
+    """all T: the step loop (cut) of a hedger whose model ignores prev_hedge produces, column by column, the hedge
+    that the all-at-once branch produces.  Extra invariant: outputs[k][n, 0, h] == vectorised hedge[n, h, k]."""
+    def check():
+        t0 = time.time()
+        from pfv import cutloops
+        from pfv.torchlib.tensor import ti
+        from pfhedge.nn.modules.hedger import Hedger
+        hyps = DIMS + [tm.ge(tm.var('c1'), tm.ZERO)]
+        Hc = tm.const(H, 'I')
+        hold = {}
+
+        def extra_inv(state, elem):
+            V = hold['V']
+            n, k, h = tm.fresh('bn', 'I'), tm.fresh('bk', 'I'), tm.fresh('bh', 'I')
+            return [('outputs[k] == column k of the all-at-once hedge, for k < time_step',
+                     tm.forall(n, tm.IZERO, N, tm.forall(k, tm.IZERO, lift(state['time_step']), tm.forall(h, tm.IZERO, Hc, tm.eq(elem(n, k, h), V.at((n, h, k)))))))]
+        def extra_lemmas(state):
+            # index-wise (proved at a fresh path index, then assumed for all): the output appended in this iteration is column i of V
+            V = hold['V']
+            new = list(list.__iter__(state['outputs']))[-1]
+            i_new = tm.sub(lift(state['time_step']), tm.IONE)
+            return [('the output of step i == column i of the all-at-once hedge [h=%d]' % hh,
+                     (lambda q, hh=hh: tm.eq(new.at((q, tm.IZERO, tm.const(hh, 'I'))), V.at((q, tm.const(hh, 'I'), i_new)))), tm.IZERO, N) for hh in range(H)]
+        cut, info = cutloops.cut(Hedger.compute_hedge, {0: _loop_spec(H, None, extra_inv, extra_lemmas)})
+
+        def run(c):
+            d = mk_derivative(cost=SReal(tm.var('c1')))
+            d_s = mk_derivative(cost=SReal(tm.var('c1')))
+            assume_positive_spot(c)
+            if H >= 2:
+                assume_positive_spot(c, 'spot2')
+            import pfhedge.nn as pnn
+            L = FEATS_BVS
+            hv = pnn.Hedger(UserModel.make(H), L)
+            hs = pnn.Hedger(UserModel.make(H, ignore_last=H), L + ['prev_hedge'])
+            kw = {'hedge': mk_hedge_list(d, H)} if H >= 2 else {}
+            kw_s = {'hedge': mk_hedge_list(d_s, H)} if H >= 2 else {}
+            V = hv.compute_hedge(d, **kw)
+            hold['V'] = V
+            W = cut(hs, d_s, **kw_s)
+            return V, W
+        try:
+            paths = explore(run, hyps, max_paths=16)
+        except Unsupported as e:
+            return Verdict('unknown', 'engine', time.time() - t0, 'out of reach: %s' % e)
+        rows = []
+        n, h, j = tm.var('n', 'I'), tm.var('h', 'I'), tm.var('j', 'I')
+        rng = [tm.le(tm.IZERO, n), tm.lt(n, N), tm.le(tm.IZERO, h), tm.lt(h, Hc), tm.le(tm.IZERO, j), tm.lt(j, T)]
+        seen_iter = seen_exit = False
+        st = lambda r: {'unsat': 'proved', 'sat': 'refuted'}.get(r.status, 'unknown')
+        for p in paths:
+            for so in p.side:
+                if so['kind'] in ('inv-init', 'inv-preserve', 'lemma') or 'list of symbolic length' in so['name']:
+                    r = fc.prove_inst(so['hyps'], so['goal'], timeout_ms=30000)
+                    rows.append(('%s: %s' % (so['kind'], so['name']), st(r), tm.show(so['goal'])[:300] if r.status != 'unsat' else ''))
+            if p.aborted is not None and p.aborted.kind == 'loop-cut':
+                seen_iter = True
+                continue
+            if p.outcome() != 'returns':
+                return Verdict('unknown', 'engine', time.time() - t0, 'path %s %s %s' % (p.outcome(), p.exception, p.traceback[-600:]))
+            seen_exit = True
+            V, W = p.result
+            facts = p.facts(hyps)
+            for a_, b_ in zip(W._shape, V._shape):
+                r = smt.prove(facts, tm.eq(ti(a_), ti(b_)), timeout_ms=10000)
+                rows.append(('same shape', st(r), '%s vs %s' % (W._shape, V._shape) if r.status != 'unsat' else ''))
+            r = fc.prove_inst(facts + rng, tm.eq(W.at((n, h, j)), V.at((n, h, j))), timeout_ms=30000)
+            rows.append(('step-by-step hedge[n,h,j] == all-at-once hedge[n,h,j] for every j < T', st(r), tm.show(W.at((n, h, j)))[:300] if r.status != 'unsat' else ''))
+        if not (seen_iter and seen_exit):
+            return Verdict('unknown', 'engine', time.time() - t0, 'paths: %s' % [p.outcome() for p in paths])
+        sample = {'claim': 'same hedge in both evaluation modes for every number of steps', 'H': H, 'rewritten': info['rewritten'][-700:], 'vcs': [{'vc': r_[0], 'status': r_[1]} for r_ in rows][:20], 'n_vcs': len(rows)}
+        bad = [r_ for r_ in rows if r_[1] == 'refuted']
+        unk = [r_ for r_ in rows if r_[1] == 'unknown']
+        if bad:
+            return Verdict('refuted', 'z3 + loop cut', time.time() - t0, '; '.join('%s %s' % (r_[0], r_[2]) for r_ in bad)[:600], witness={'failed': [r_[0] for r_ in bad]}, sample=sample, replay=_replay_hedger())
+        if unk:
+            return Verdict('unknown', 'z3', time.time() - t0, '; '.join('%s %s' % (r_[0], r_[2]) for r_ in unk)[:600], sample=sample)
+        return Verdict('proved', 'z3 (UF, quantified loop invariant)', time.time() - t0, '%d VCs' % len(rows), sample=sample)
+    return Obligation('HS/compute_hedge/loop:batched==stepwise[H=%d,all T]' % H, 'inv-init/inv-preserve/post', 'pfhedge.nn.modules.hedger.Hedger.compute_hedge', check, ['C03'],
+                      clause='a hedger with state-independent inputs gives the same hedge all-at-once and step-by-step for EVERY number of steps (uninterpreted point-wise model, all N; H=%d): loop invariant outputs[k] == column k' % H)
+
+
 def prev_hedge_flow_ob(H, Tc):
     def check():
         t0 = time.time()
@@ -809,9 +1105,9 @@ from pfhedge.instruments import BrownianStock, EuropeanOption
 torch.manual_seed(2)
 bad = []
 for H in (1, 2, 3):
-    und = BrownianStock(dt=0.01); d = EuropeanOption(und, maturity=0.05); d.simulate(n_paths=5)
+    und = BrownianStock(dt=0.01); d = EuropeanOption(und, maturity=0.2); d.simulate(n_paths=5)
     others = [BrownianStock(dt=0.01) for _ in range(H - 1)]
-    for o in others: o.simulate(n_paths=5, time_horizon=0.05)
+    for o in others: o.simulate(n_paths=5, time_horizon=0.2)
     seen = []
     class M(torch.nn.Module):
         def forward(self, x):
@@ -839,6 +1135,10 @@ def c03_obligations(seed, tier='quick'):
     obs.append(batched_vs_stepwise_ob(1, 3, alias_model=True))
     for (H, Tc) in ((1, 3), (2, 3), (3, 2)) + (((2, 5),) if tier != 'quick' else ()):
         obs.append(prev_hedge_flow_ob(H, Tc))
+    # every number of steps: the step loop cut by its invariant
+    for H in (1, 2):
+        obs.append(batched_vs_stepwise_loop_ob(H))
+        obs.append(hedge_loop_ob('user', H, aspects=('prev', 'shape'), props=('C03',)))
     return obs
 
 
@@ -863,9 +1163,16 @@ def compute_pl_ob(which, model_kind, H, stepwise, Tc=None, clause_=False):
                 if clause_:
                     d.add_clause('knockout', lambda dd, payoff: payoff * 0.5 + 1.0)
                 feats = ['log_moneyness', 'time_to_maturity', 'volatility'] + (['prev_hedge'] if stepwise else [])
-                hedger, _ = mk_hedger(model_kind, d, H, feats)
+                hedger, _ = mk_hedger('user' if model_kind == 'contract' else model_kind, d, H, feats)
                 hl = mk_hedge_list(d, H)
                 kw = {'hedge': hl} if H >= 2 else {}
+                if model_kind == 'contract':
+                    # the caller is checked against the CALLEE'S CONTRACT, not its body: compute_hedge returns some (N, H, T)
+                    # tensor (proved for both branches and every T by the HS/compute_hedge obligations) - its values are arbitrary
+                    import torch
+                    from pfv.torchlib.tensor import Tensor
+                    UNIT = Tensor.input('UNIT', (N, H, T), torch.float64, origin='fresh')
+                    hedger.compute_hedge = lambda derivative, hedge=None: UNIT
                 unit = hedger.compute_hedge(d, **kw)
                 res = getattr(hedger, which)(d, **kw)
                 return res, unit, [h_.spot for h_ in hl], [h_.cost for h_ in hl], d.payoff()
@@ -961,6 +1268,8 @@ def c01_obligations(seed, tier='quick'):
         obs.append(compute_pl_ob(which, 'user', 2, False))
         obs.append(compute_pl_ob(which, 'user', 3, False))
         obs.append(compute_pl_ob(which, 'user', 2, True, Tc=3))
+        for H in (1, 2, 3):
+            obs.append(compute_pl_ob(which, 'contract', H, False))
     obs.append(compute_pl_ob('compute_pl', 'user', 1, False, clause_=True))
     obs.append(compute_pl_ob('compute_pl', 'linear', 2, False))
     return obs
